@@ -1,5 +1,7 @@
 import Gimli.Lemmas.Index
 import Gimli.Lemmas.Aranges
+import Gimli.Lemmas.Package
+import Gimli.Model.Loader
 /-!
 # C17 — Accelerated lookups and section plumbing agree with exhaustive scans
 
@@ -164,6 +166,68 @@ theorem aranges_entries_exact (e : Endian) (addressSize : Nat)
   entries_tuples e addressSize has tail htail fuel ts
     (fun t ht => by rw [pow256]; exact hb t ht) hf
 
+/-! ## package units, indexed tables -/
+
+/-- **A unit fetched from a package equals the unit in its standalone object.**  Let the index
+row of a unit list each section kind at most once, and let every kind either have no column (the
+standalone object has no such section) or a column `(kind, offset, size)` that points at the
+standalone section's bytes inside the package section (`pkg kind = pre ++ standalone kind ++
+post`, `offset = |pre|`, `size = |standalone kind|`).  Then the ten `dwp_range` calls of
+`DwarfPackage::sections` succeed and return exactly the standalone sections. -/
+theorem dwp_slice (pkg : SecKind → Bytes) (cols : List (SecKind × Nat × Nat))
+    (standalone : SecKind → Bytes) (huniq : (cols.map (·.1)).Nodup)
+    (h : ∀ k, k ∈ sliceOrder → Contributes pkg cols standalone k) :
+    packageSlices pkg cols sliceOrder = .ok (sliceOrder.map fun k => (k, standalone k)) :=
+  packageSlices_standalone pkg cols standalone huniq sliceOrder h
+
+/-- `sliceOrder` covers every section kind an index can name -/
+theorem dwp_slice_all_kinds (k : SecKind) : k ∈ sliceOrder := by cases k <;> decide
+
+open Gimli.Indexed in
+/-- **Indexed string offsets return exactly the table entry**: for a table of offsets `vals`
+located at `base` in `.debug_str_offsets` (anything before and after), `get_str_offset(base, i)`
+is `vals[i]`, for either format and byte order. -/
+theorem indexed_string_exact (e : Endian) (f : Format) (pre post : Bytes) (vals : List Nat) (i : Nat)
+    (hi : i < vals.length) (hb : ∀ v, v ∈ vals → v < 2 ^ (8 * f.wordSize))
+    (hsz : i * f.wordSize < 2 ^ 64) :
+    getStrOffset e f (pre ++ vals.flatMap (fun v => toBytes e f.wordSize v) ++ post) pre.length i =
+      .ok vals[i] :=
+  getStrOffset_table e f pre post vals i hi (fun v hv => by rw [pow256]; exact hb v hv) hsz
+
+open Gimli.Indexed in
+/-- **Indexed addresses return exactly the table entry**, for every address size 1/2/4/8. -/
+theorem indexed_address_exact (e : Endian) (sz : Nat) (hs : sz = 1 ∨ sz = 2 ∨ sz = 4 ∨ sz = 8)
+    (pre post : Bytes) (vals : List Nat) (i : Nat)
+    (hi : i < vals.length) (hb : ∀ v, v ∈ vals → v < 2 ^ (8 * sz)) (hsz : i * sz < 2 ^ 64) :
+    getAddress e sz (pre ++ vals.flatMap (fun v => toBytes e sz v) ++ post) pre.length i =
+      .ok vals[i] :=
+  getAddress_table e sz hs pre post vals i hi (fun v hv => by rw [pow256]; exact hb v hv) hsz
+
+/-! ## loader wiring -/
+
+open Gimli.Loader in
+/-- **Each section type loaded through the section loader receives that section's data and no
+other** (finite tables mirroring `DwarfSections::load`, `Dwarf::from_sections`,
+`DwarfPackageSections::load`, `Section::id`, `SectionId::name`; decided by evaluation).
+1. every field of `DwarfSections` is loaded with the `SectionId` whose ELF name is the field's
+   name, and no id is requested twice;
+2. every slot of `Dwarf` (including both halves of `locations` and `ranges`) ends up holding what
+   the loader returned for the slot type's own id, for every loader;
+3. `Dwarf::lookup_offset_id` reports a marker under its own id exactly for the sections it
+   consults, and under no other id;
+4. the same for the 13 fields of `DwarfPackageSections` (`cu_index` ↦ `.debug_cu_index`, …). -/
+theorem loader_wiring :
+    (∀ p, p ∈ dwarfSectionsFields → p.2.name = "." ++ p.1) ∧
+    (dwarfSectionsFields.map (·.2)).Nodup ∧
+    (∀ (α : Type) (loader : SectionId → α),
+      dwarfLoad loader = dwarfSlots.map fun (slot, id, _) => (slot, some (loader id))) ∧
+    (∀ p, p ∈ dwarfSlots → p.2.1.name = "." ++ p.2.2) ∧
+    (∀ m, lookupMarker m = if m ∈ lookupOrder.map (·.2) then some m else none) ∧
+    (∀ p, p ∈ packageFields → p.2.name = "." ++ p.1 ∨ p.2.name = ".debug_" ++ p.1) ∧
+    (packageFields.map (·.2)).Nodup := by
+  refine ⟨by decide, by decide, fun _ _ => rfl, by decide, ?_, by decide, by decide⟩
+  intro m; cases m <;> decide
+
 /-! ## non-vacuity -/
 
 example : build 2 [(5, 1), (9, 2), (13, 3), (0x100000001, 4)] =
@@ -172,5 +236,8 @@ example : Aranges.padding .dwarf32 8 = 4 ∧ Aranges.padding .dwarf64 8 = 8 ∧
     Aranges.padding .dwarf32 4 = 4 ∧ Aranges.padding .dwarf64 2 = 0 := by decide
 example : Aranges.scanTuples 4 [(0x1000, 0x10), (0, 0), (0xffffffff, 5), (0xfffffff0, 0x20), (7, 1)] =
     [.item ⟨0x1000, 0x1010, 0x10⟩, .error .rAddressOverflow, .item ⟨7, 8, 1⟩] := by decide
+
+example : Index.dwpRange [1, 2, 3, 4, 5] 1 3 = .ok [2, 3, 4] := by decide
+example : Indexed.getStrOffset .little .dwarf32 [9, 9, 1, 0, 0, 0, 2, 0, 0, 0] 2 1 = .ok 2 := by decide
 
 end Gimli.Props.C17
